@@ -252,6 +252,10 @@ def sortNodes (l : List Node) : List Node := l.foldr insertNode []
 def showLatNode (x : Node) : String :=
   Wire.joinWith ":" [toString x.e, toString x.l, toString x.r, toString x.c, if x.oov then "1" else "0", toString x.pos]
 
+/-- `idx~offset~created~pre~nodes`: one `provide_oov` call of the builder -/
+def showCall (c : Call) : String :=
+  Wire.joinWith "~" [toString c.idx, toString c.offset, toString c.created, toString c.pre, showNodes c.out]
+
 def parseWord (s : List Char) : Option Word :=
   match Wire.items ':' s with
   | [sf, l, r, c] =>
@@ -270,15 +274,15 @@ def handleLat (toks : List (List Char)) : String :=
       | some ps =>
         if ps.isEmpty then "err:setup" else
         if buf.chars.isEmpty then "ok " else
-        match buildLattice ps lex buf with
+        match buildLatticeT ps lex buf with
         | .panic _ => "PANIC"
         | .err k => "err:" ++ k
-        | .ok nodes =>
+        | .ok (nodes, tr) =>
           let per := (List.range buf.chars.length).filterMap (fun p =>
             let here := sortNodes (nodes.filter (fun x => x.b == p))
             if here.isEmpty then none
             else some (toString p ++ "=" ++ Wire.joinWith "," (here.map showLatNode)))
-          "ok " ++ Wire.joinWith ";" per
+          "ok " ++ Wire.joinWith ";" per ++ " calls=" ++ Wire.joinWith "+" ((allCalls tr).map showCall)
     | _, _ => "bad-op"
   | some none, _, _ => "err"
   | _, _, _ => "bad-op"
